@@ -46,11 +46,11 @@ theorem toSend_resets {a : AEAD} {s s' : NetcodeServer} {addr : Addr} {buf : Byt
     (pendingFind s'.pendingClients addr = none ∨
       ∃ q, pendingFind s'.pendingClients addr = some q ∧ q.replayProtection = RP.new) := by
   have hcr : ∀ {s0 : NetcodeServer} {v : Bytes} {pid expire : Nat} {xnonce data : Bytes} {R : NetcodeServer.SRes},
-      s0.clients = s.clients → HcrOut a s0 addr v pid expire xnonce data R → HcrRes R r s' →
+      HcrOut a s0 addr v pid expire xnonce data R → HcrRes R r s' → s0.clients = s.clients →
       s'.clients = s.clients ∧ (∃ out, r = .packetToSend addr out) ∧
       (pendingFind s'.pendingClients addr = none ∨
         ∃ q, pendingFind s'.pendingClients addr = some q ∧ q.replayProtection = RP.new) := by
-    intro s0 v pid expire xnonce data R hcl hout hres
+    intro s0 v pid expire xnonce data R hout hres hcl
     obtain ⟨h1, h2⟩ := hcr_clients hout hres
     refine ⟨h1.trans hcl, ?_, ?_⟩
     · rcases h2 with rfl | h2
@@ -70,7 +70,7 @@ theorem toSend_resets {a : AEAD} {s s' : NetcodeServer} {addr : Addr} {buf : Byt
   | connOther i c sq pk w' hfa hdec _ _ _ => cases hr
   | connPayload i c sq p w' hfa hdec => cases hr
   | pendErr p e w' hfa hpf hdec => cases hr
-  | pendRequest p sq v pid expire xnonce data w' R _ _ hfa hpf hdec hout hres => exact ⟨hfa, hcr rfl hout hres⟩
+  | pendRequest p sq v pid expire xnonce data w' R _ _ hfa hpf hdec hout hres => exact ⟨hfa, hcr hout hres rfl⟩
   | pendOther p sq pk w' hfa hpf hdec _ _ => cases hr
   | respRejected p sq ts td w' hfa hpf hdec _ => cases hr
   | respDropped p sq ts td w' hfa hpf hdec _ => cases hr
@@ -80,7 +80,7 @@ theorem toSend_resets {a : AEAD} {s s' : NetcodeServer} {addr : Addr} {buf : Byt
     rw [pendingFind_filter_ne, if_pos rfl]
   | respConnected p sq ts td w' i out hfa hpf hdec hct hid hff hen => cases hr
   | newErr e hfa hpf hdec => cases hr
-  | newRequest sq v pid expire xnonce data R _ _ hfa hpf hdec hout hres => exact ⟨hfa, hcr rfl hout hres⟩
+  | newRequest sq v pid expire xnonce data R _ _ hfa hpf hdec hout hres => exact ⟨hfa, hcr hout hres rfl⟩
 
 /-- **Any other answer keeps the half-open session of the sender** (if there is one afterwards): same receive key, and the
     datagram went through `decode` under that key. -/
@@ -93,14 +93,14 @@ theorem no_toSend_keeps_pending {a : AEAD} {s s' : NetcodeServer} {addr : Addr} 
       pendingFind s.pendingClients addr = some q → False := by
     intro i c hfa hf
     obtain ⟨hc, hca⟩ := findAddr_some hfa
-    exact (hi.pend (addr, q) (pendingFind_mem hf)).fresh i c hc hca
-  have setq : ∀ {p x : Connection} {res : NRes (Nat × Packet)} {w' : RP}, pendingFind s.pendingClients addr = some p →
+    exact (hi.pend (addr, q) (NS.pendingFind_mem hf)).fresh i c hc hca
+  have setq : ∀ {p x : Connection} {res : NRes (Nat × Packet)} {w' : RP},
+      pendingFind (pendingSet s.pendingClients addr x) addr = some q → pendingFind s.pendingClients addr = some p →
       Packet.decode a buf s.protocolId (some p.receiveKey) (some p.replayProtection) = (res, some w') →
       x.receiveKey = p.receiveKey → x.replayProtection = w' →
-      pendingFind (pendingSet s.pendingClients addr x) addr = some q →
       ∃ p, pendingFind s.pendingClients addr = some p ∧ q.receiveKey = p.receiveKey ∧
         DecodedUnder a s.protocolId buf p.receiveKey p.replayProtection q.replayProtection := by
-    intro p x res w' hpf hdec hk hw hf
+    intro p x res w' hf hpf hdec hk hw
     rw [pendingFind_set, if_pos rfl] at hf
     cases hf
     exact ⟨p, hpf, hk, by rw [hw]; exact decodedUnder_of_decode hdec⟩
@@ -111,13 +111,13 @@ theorem no_toSend_keeps_pending {a : AEAD} {s s' : NetcodeServer} {addr : Addr} 
   | connKeepAlive i c sq ci mc w' hfa hdec => exact (conn hfa hq).elim
   | connOther i c sq pk w' hfa hdec _ _ _ => exact (conn hfa hq).elim
   | connPayload i c sq p w' hfa hdec => exact (conn hfa hq).elim
-  | pendErr p e w' hfa hpf hdec => exact setq hpf hdec rfl rfl hq
+  | pendErr p e w' hfa hpf hdec => exact setq hq hpf hdec rfl rfl
   | pendRequest p sq v pid expire xnonce data w' R _ _ hfa hpf hdec hout hres =>
     rcases hcr_pendingFind hout hres addr q hq with ⟨hf', _⟩ | ⟨_, _, hts⟩
-    · exact setq hpf hdec rfl rfl hf'
+    · exact setq hf' hpf hdec rfl rfl
     · rw [hts] at hr; cases hr
-  | pendOther p sq pk w' hfa hpf hdec _ _ => exact setq hpf hdec rfl rfl hq
-  | respRejected p sq ts td w' hfa hpf hdec _ => exact setq hpf hdec rfl rfl hq
+  | pendOther p sq pk w' hfa hpf hdec _ _ => exact setq hq hpf hdec rfl rfl
+  | respRejected p sq ts td w' hfa hpf hdec _ => exact setq hq hpf hdec rfl rfl
   | respDropped p sq ts td w' hfa hpf hdec _ =>
     dsimp only at hq
     rw [pendingFind_filter_ne, if_pos rfl] at hq; cases hq
@@ -142,12 +142,12 @@ theorem no_toSend_keeps_slot {a : AEAD} {s s' : NetcodeServer} {addr : Addr} {bu
       c'.receiveKey = p.receiveKey ∧
       DecodedUnder a s.protocolId buf p.receiveKey p.replayProtection c'.replayProtection) := by
   have conn : ∀ {i : Nat} {c x : Connection} {res : NRes (Nat × Packet)} {w' : RP},
-      findClientByAddr s.clients addr = some (i, c) →
+      At (s.clients.set i (some x)) j c' → findClientByAddr s.clients addr = some (i, c) →
       Packet.decode a buf s.protocolId (some c.receiveKey) (some c.replayProtection) = (res, some w') →
-      x.receiveKey = c.receiveKey → x.replayProtection = w' → At (s.clients.set i (some x)) j c' →
+      x.receiveKey = c.receiveKey → x.replayProtection = w' →
       ∃ c, At s.clients j c ∧ c.addr = addr ∧ c'.receiveKey = c.receiveKey ∧
         DecodedUnder a s.protocolId buf c.receiveKey c.replayProtection c'.replayProtection := by
-    intro i c x res w' hfa hdec hk hw hat
+    intro i c x res w' hat hfa hdec hk hw
     obtain ⟨hc, hca⟩ := findAddr_some hfa
     rcases at_set_some hat with ⟨rfl, rfl⟩ | ⟨hne, hj⟩
     · exact ⟨c, hc, hca, hk, by rw [hw]; exact decodedUnder_of_decode hdec⟩
@@ -156,7 +156,7 @@ theorem no_toSend_keeps_slot {a : AEAD} {s s' : NetcodeServer} {addr : Addr} {bu
     fun hfa hj => findAddr_none.mp hfa j c' hj ha
   cases ho with
   | short hs => exact Or.inl ⟨c', hc', ha, rfl, Or.inl ⟨hs, rfl⟩⟩
-  | connErr i c e w' hfa hdec => exact Or.inl (conn hfa hdec rfl rfl hc')
+  | connErr i c e w' hfa hdec => exact Or.inl (conn hc' hfa hdec rfl rfl)
   | connDisconnect i c sq w' hfa hdec =>
     obtain ⟨hc, hca⟩ := findAddr_some hfa
     dsimp only at hc'
@@ -165,9 +165,9 @@ theorem no_toSend_keeps_slot {a : AEAD} {s s' : NetcodeServer} {addr : Addr} {bu
     · exact nomatch hc'.2
     · rename_i hne
       exact absurd (hi.slots.addrs i j c c' hc hc' (by rw [hca, ha])) hne
-  | connKeepAlive i c sq ci mc w' hfa hdec => exact Or.inl (conn hfa hdec rfl rfl hc')
-  | connOther i c sq pk w' hfa hdec _ _ _ => exact Or.inl (conn hfa hdec rfl rfl hc')
-  | connPayload i c sq p w' hfa hdec => exact Or.inl (conn hfa hdec rfl rfl hc')
+  | connKeepAlive i c sq ci mc w' hfa hdec => exact Or.inl (conn hc' hfa hdec rfl rfl)
+  | connOther i c sq pk w' hfa hdec _ _ _ => exact Or.inl (conn hc' hfa hdec rfl rfl)
+  | connPayload i c sq p w' hfa hdec => exact Or.inl (conn hc' hfa hdec rfl rfl)
   | pendErr p e w' hfa hpf hdec => exact (noconn hfa hc').elim
   | pendRequest p sq v pid expire xnonce data w' R _ _ hfa hpf hdec hout hres =>
     rw [(hcr_clients hout hres).1] at hc'; exact (noconn hfa hc').elim
@@ -244,34 +244,35 @@ example : ∃ s', step Ex.a s0 (.packet addrA reqA) = some (.packetToSend addrA 
     obtain ⟨h1, _, h3, _, h5⟩ := (step_reset_point_partial (ReachT.init (a := Ex.a) s0_empty) hs).1 rfl
     exact ⟨s', rfl, h1, h3, h5⟩
 
-/-- the non-reset branch on the run `pendOps` of `Props/C04W.lean`: second step answered with `None` -/
+/-- two steps, kernel-executed: the second answer is `None` and `addrA` still has a half-open session -/
+theorem ex_step2 : ((step Ex.a s0 (.packet addrA reqA)).bind (fun x => (step Ex.a x.2 (.packet addrA payFromA)).map
+    (fun y => (y.1, (pendingFind y.2.pendingClients addrA).isSome)))) = some (.none, true) := by decide +kernel
+
+/-- the non-reset branch: the payload datagram after the request is answered with `None`; the half-open session of `addrA`
+    continues under the same key, the datagram decoded under it -/
 example : ∃ tr s s' r, ReachT Ex.a s tr ∧ step Ex.a s (.packet addrA payFromA) = some (r, s') ∧ isToSend r = false ∧
     ∃ q p, pendingFind s'.pendingClients addrA = some q ∧ pendingFind s.pendingClients addrA = some p ∧
       q.receiveKey = p.receiveKey ∧
       DecodedUnder Ex.a s.protocolId payFromA p.receiveKey p.replayProtection q.replayProtection := by
-  have h := ex_step1
+  have h := ex_step2
   cases hs : step Ex.a s0 (.packet addrA reqA) with
   | none => rw [hs] at h; cases h
   | some x =>
     obtain ⟨r, s1⟩ := x
     have hr1 : ReachT Ex.a s1 ([] ++ [(Op.packet addrA reqA, r)]) := .step (.init s0_empty) hs
-    have h2 : (runT Ex.a s0 pendOps).map (fun x => x.1.map (·.2)) = some [.packetToSend addrA chalA, .none] := pend_results
-    have h3 := pend_final
-    simp only [pendOps, runT, hs] at h2 h3
+    rw [hs, Option.bind_some] at h
     cases hs2 : step Ex.a s1 (.packet addrA payFromA) with
-    | none => simp [hs2] at h2
+    | none => rw [hs2] at h; cases h
     | some y =>
       obtain ⟨r2, s2⟩ := y
-      simp [hs2] at h2 h3
-      have hr2 : isToSend r2 = false := by rw [h2.2]; rfl
-      cases hp : s2.pendingClients with
-      | nil => rw [hp] at h3; simp at h3
-      | cons z rest =>
-        have hz : z.1 = addrA := by rw [hp] at h3; simp at h3; exact h3.1.1.1
-        have hq : pendingFind s2.pendingClients addrA = some z.2 := by
-          rw [hp]; simp only [pendingFind, hz, if_pos]
-        obtain ⟨p, hp1, hp2, hp3⟩ := ((step_reset_point_partial hr1 hs2).2 hr2).2.1 z.2 hq
-        exact ⟨_, s1, s2, r2, hr1, hs2, hr2, z.2, p, hq, hp1, hp2, hp3⟩
+      rw [hs2] at h
+      simp only [Option.map_some, Option.some.injEq, Prod.mk.injEq] at h
+      have hr2 : isToSend r2 = false := by rw [h.1]; rfl
+      cases hq : pendingFind s2.pendingClients addrA with
+      | none => rw [hq] at h; exact absurd h.2 (by simp)
+      | some q =>
+        obtain ⟨p, hp1, hp2, hp3⟩ := ((step_reset_point_partial hr1 hs2).2 hr2).2.1 q hq
+        exact ⟨_, s1, s2, r2, hr1, hs2, hr2, q, p, hq, hp1, hp2, hp3⟩
 
 end Examples
 
